@@ -204,3 +204,28 @@ def install(I):
             return SymSet(t)
         return SymSet(z3.SetUnion(z3.EmptySet(V), I.union_of_seq(I.as_seq(v))))
     H[api.union_all] = _union_all
+
+    def _ite(I, args, kw, star, dstar, node):
+        c, a, b = args
+        t = I.truth(c)
+        if isinstance(t, bool):
+            return a if t else b
+        if isinstance(a, SymBV) or isinstance(b, SymBV):
+            w = (a if isinstance(a, SymBV) else b).t.size()
+            ta = a.t if isinstance(a, SymBV) else z3.BitVecVal(a.obj, w)
+            tb = b.t if isinstance(b, SymBV) else z3.BitVecVal(b.obj, w)
+            return SymBV(z3.If(t, ta, tb))
+        ia, ib = I.as_int(a), I.as_int(b)
+        if ia is not None and ib is not None:
+            return SymInt(z3.If(t, ia, ib))
+        return SymV(z3.If(t, I.lift(a), I.lift(b)))
+    H[api.ite] = _ite
+
+    def _to_int(I, args, kw, star, dstar, node):
+        (x,) = args
+        if isinstance(x, SymBV):
+            return SymInt(z3.BV2Int(x.t))
+        if isinstance(x, (SymInt, Conc)):
+            return x
+        raise Unsupported("to_int")
+    H[api.to_int] = _to_int
